@@ -1,5 +1,6 @@
 mod common;
 mod stream;
+mod aead;
 mod inchash;
 #[cfg(feature = "nightly")]
 mod prot;
@@ -16,6 +17,8 @@ fn main() {
     match args[0].as_str() {
         "stream-replay" => stream::cmd_replay(rest),
         "stream-trace" => stream::cmd_trace(rest),
+        "aead-roundtrip" => aead::cmd_roundtrip(rest),
+        "aead-tamper" => aead::cmd_tamper(rest),
         "inc-splits" => inchash::cmd_splits(rest),
         "inc-replay" => inchash::cmd_replay(rest),
         "inc-trace" => inchash::cmd_trace(rest),
